@@ -13,7 +13,7 @@ from sv import registry as R
 
 PROPERTY = "C01"
 GEN = []
-PROPS = ["ScoresVerif/Props/C01.lean"]
+PROPS = ["ScoresVerif/Props/C01.lean", "ScoresVerif/Props/C01Arr.lean"]
 DRIVER_DEPS = ["ScoresVerif.Driver.C01"]
 LEVEL = "proof"
 TRUSTED = ["xarray .mean(dim=…)/.sum(dim=…) reduce exactly the dims they are given (library behaviour, observed)",
@@ -211,7 +211,9 @@ def check_scores(ctx, ncases, model=True, only=None):
         if isinstance(facts.get(e.name), bool) and facts[e.name] != e.passes_weights_dims:
             ctx.notes.append(f"call-site fact changed: {e.name} passes weights_dims={facts[e.name]} (registry: {e.passes_weights_dims})")
         for ci in range(ncases):
-            case = R.gen_case(rng, e, with_weights=(rng.random() < 0.5), nan_p=(0.15 if ci % 2 else 0.0))
+            case = R.gen_case(rng, e, with_weights=(rng.random() < 0.5), nan_p=(0.15 if ci % 2 else 0.0),
+                              overlap=("same", "obs-superset", "obs-subset")[ci % 3])
+            ctx.tag("overlap:" + ("same", "obs-superset", "obs-subset")[ci % 3])
             data = set(case.fcst_dims) | set(case.obs_dims)
             extra_w = set()
             if case.weights is not None:
@@ -321,7 +323,7 @@ def correspondence(ctx):
 
 def oracle(ctx, boost):
     check_gather(ctx, "gather-vs-rule", "property", "spec")
-    check_scores(ctx, ncases=ctx.n(2, 8) * (3 if boost else 1))
+    check_scores(ctx, ncases=ctx.n(3, 9) * (3 if boost else 1))
     check_f9(ctx)
 
 
